@@ -610,10 +610,12 @@ structure Dur3 where
 
 def Dur3.any (d : Dur3) : Bool := d.min.isSome || d.max.isSome || d.dflt.isSome
 
-/-- `linkedca.Claims` (duration part): `X509` block (`none` = nil) with its `Durations` block; `Ssh` block with
+/-- `linkedca.Claims` (duration part): `X509` block (`none` = nil) with `Enabled` and its `Durations` block; `Ssh` block with
     `Enabled` and the user / host `Durations` blocks -/
 structure LClaims where
-  x509 : Option (Option Dur3) := none
+  /-- `X509` block: its `Enabled` flag (written `true` by `claimsToLinkedca`, NOT consulted by
+      `claimsToCertificates`) and its `Durations` block -/
+  x509 : Option (Bool × Option Dur3) := none
   ssh : Option (Bool × Option Dur3 × Option Dur3) := none
   deriving Repr, DecidableEq
 
@@ -629,14 +631,14 @@ def toLinked (c : Option CClaims) : Option LClaims :=
     let x : Dur3 := ⟨c.d.minTLS, c.d.maxTLS, c.d.defTLS⟩
     let u : Dur3 := ⟨c.d.minUser, c.d.maxUser, c.d.defUser⟩
     let h : Dur3 := ⟨c.d.minHost, c.d.maxHost, c.d.defHost⟩
-    { x509 := if x.any then some (some x) else none,
+    { x509 := if x.any then some (true, some x) else none,
       ssh := if c.enableSSH = some true then some (true, (if u.any then some u else none), (if h.any then some h else none))
              else none }
 
 /-- `claimsToCertificates` (parse errors are a separate outcome of the harness-side parser) -/
 def toCert (l : Option LClaims) : Option CClaims :=
   l.map fun l =>
-    let x : Dur3 := (l.x509.bind id).getD {}
+    let x : Dur3 := (l.x509.bind (·.2)).getD {}
     let (en, u, h) : Option Bool × Dur3 × Dur3 :=
       match l.ssh with
       | some (e, u, h) => (some e, u.getD {}, h.getD {})
@@ -675,7 +677,7 @@ def validateLClaims (l : Option LClaims) : Bool :=
   match l with
   | none => true
   | some l =>
-    (match l.x509 with | some (some d) => validateDurations d | _ => true) &&
+    (match l.x509 with | some (_, some d) => validateDurations d | _ => true) &&
     (match l.ssh with
      | some (_, u, h) => (match u with | some d => validateDurations d | none => true) &&
                          (match h with | some d => validateDurations d | none => true)
